@@ -346,7 +346,7 @@ impl Property for Univ {
                 }
             }
             "C19" => {
-                v.push(Box::new(crate::props::meta::ThreadsSweep { seed: mix2(seed, 0x19), batches: if thorough { 64 } else { 8 } }));
+                v.push(Box::new(crate::props::meta::ThreadsSweep { seed: mix2(seed, 0x19), batches: if thorough { 96 } else { 12 } }));
                 if let Ok(p) = std::env::var("VERIF_NIGHTLY_BIN") {
                     if std::path::Path::new(&p).exists() {
                         v.push(Box::new(crate::props::meta::ToolchainSweep { seed: mix2(seed, 0x1919), batches: if thorough { 3200 } else { 80 }, other_bin: p.into() }));
